@@ -37,12 +37,16 @@
   that the real `json.dumps` writes what `JV.dumps` writes (a transcription, not a theorem about CPython); that the
   ghost list `retired` of an extended history holds nothing but rerun-replaced, deleted and crash-lost identifiers;
   a last-writer law for operations that raise or are cut, and for `get_results`, by a stale object.
+  Wave 10 (section 10c, proofs only): `retired` is PROVED write-only (every operation and the crash step leave it alone
+  or prepend to it) and the ledger `lost` is PROVED to be inside it; of the second item above what is left is the
+  provenance bound (every entry of `retired` is rerun-replaced, deleted or crash-lost).
 -/
 import PercevalModel.Lemmas.C19
 import PercevalModel.Lemmas.C19TW
 import PercevalModel.Lemmas.C19Dumps
 import PercevalModel.Model.C19Crash
 import PercevalModel.Lemmas.C19CrashM
+import PercevalModel.Lemmas.C19W10
 import PercevalModel.Lemmas.C19Conc
 import PercevalModel.Lemmas.C19ConcMore
 
@@ -856,6 +860,63 @@ example :
     let x := exec xstep (xinit true) xs
     x.st.issued = [4, 3, 0] ∧ diskIds x.st = [0, 4] ∧ x.st.retired = [3] ∧ x.lost = [3] ∧
     (run xstep (xinit true) xs).2.map (·.res) = [.ok, .ok, .killed, .killed, .ok, .ok, .ok] := by
+  refine ⟨by simp [WFX, WFOp, WFJob, plainJob, launchPar], ?_⟩
+  decide
+
+/-! ### 10c (wave 10, proofs only). the ghost list `retired` is write-only
+
+The lemma "per operation" that section 10b names as missing (`Lemmas/C19W10.lean`): every operation of the machine
+(`step_retired`: `add`, every launch mode, the status views, `get_results`, `track_progress`, re-opening, deletion)
+and the crash step leave `retired` alone or PREPEND to it; nothing is ever removed or reordered. -/
+
+/-- **crash_histories_retired_write_only.**  Along every extended history (operations and crashes, all answers, all
+stopping points) the ghost list `retired` only grows at its head: what it held after any prefix `pre` of a history
+is a suffix of what it holds after `pre ++ post`, so an identifier once retired stays retired, and no operation's
+entry is ever dropped. -/
+theorem crash_histories_retired_write_only (dir : Bool) (pre post : List XOp) (hw : ∀ o ∈ pre ++ post, WFX o) :
+    (exec xstep (xinit dir) pre).st.retired <:+ (exec xstep (xinit dir) (pre ++ post)).st.retired ∧
+    ∀ k ∈ (exec xstep (xinit dir) pre).st.retired, k ∈ (exec xstep (xinit dir) (pre ++ post)).st.retired := by
+  have h := xexec_inv dir pre (fun o ho => hw o (List.mem_append_left _ ho))
+  have hs := xexec_retired_suffix post _ h (fun o ho => hw o (List.mem_append_right _ ho))
+  rw [exec_append]
+  exact ⟨hs, fun k hk => hs.subset hk⟩
+
+/-- **retired_write_only_step.**  One step, in any reachable state: an operation prepends some (possibly no)
+identifiers to `retired`; a crash step prepends exactly the identifier in flight. -/
+theorem retired_write_only_step (dir : Bool) (xs : List XOp) (hw : ∀ o ∈ xs, WFX o) :
+    let x := exec xstep (xinit dir) xs
+    (∀ o : Op, ∃ new, (xstep x (.op o)).1.st.retired = new ++ x.st.retired) ∧
+    (∀ g : Nat, (xstep x (.crash g)).1.st.retired = (x.st.next + g) :: x.st.retired) := by
+  intro x
+  have h : Inv x.st := xexec_inv dir xs hw
+  exact ⟨fun o => let ⟨t, ht⟩ := step_retired h o; ⟨t, ht.symm⟩, fun g => lose_ret x.st g⟩
+
+/-- **crash_histories_ledger_in_retired.**  Every identifier of the ledger `lost` (in flight at some crash of the
+history) is in `retired` at the end of the history, whatever operations and crashes followed that crash: with
+`crash_histories_accepted_ids_partial`, the identifiers excused by "unless in `retired`" include all crash-lost ones,
+and none of them is excused only temporarily. -/
+theorem crash_histories_ledger_in_retired (dir : Bool) (xs : List XOp) (hw : ∀ o ∈ xs, WFX o) :
+    ∀ k ∈ (exec xstep (xinit dir) xs).lost, k ∈ (exec xstep (xinit dir) xs).st.retired :=
+  (xexec_lostRet dir xs hw).2
+
+/- STILL MISSING for the full identifier statement of section 10b: the converse bound on `retired` — that every
+entry of `retired` is the identifier of a failed job replaced by its rerun, an identifier of a deleted group, or an
+entry of the ledger (a provenance statement: it needs a ghost tag per entry, or a second ledger for reruns and
+deletions, i.e. a change of the extended state; not attempted here). -/
+
+/-- non-vacuity: the history of section 10b's example, cut after the first launch (`retired` empty) and continued
+with the crash, a re-open, a launch, a status view (job 0 SUCCESS, job 4 ERROR) and a rerun with replacement: `retired` grows from `[]` to
+`[3]` (crash) to `[4, 3]` (rerun replaces the failed job 4 by 5); the ledger `[3]` is inside it -/
+example :
+    let pre : List XOp := [.op (.add plainJob none), .op (.add plainJob none), .op (launchPar [.accept 0])]
+    let post : List XOp := [.crash 2, .op .reopen, .op (launchPar [.accept 0]), .op (.progress [.st .success, .st .error]),
+      .op (.launch true true false [.accept 0] [])]
+    (∀ o ∈ pre ++ post, WFX o) ∧
+    (exec xstep (xinit true) pre).st.retired = [] ∧
+    (exec xstep (xinit true) (pre ++ [.crash 2])).st.retired = [3] ∧
+    (exec xstep (xinit true) (pre ++ post)).st.retired = [4, 3] ∧
+    (exec xstep (xinit true) (pre ++ post)).lost = [3] ∧
+    diskIds (exec xstep (xinit true) (pre ++ post)).st = [0, 5] := by
   refine ⟨by simp [WFX, WFOp, WFJob, plainJob, launchPar], ?_⟩
   decide
 
